@@ -618,19 +618,39 @@ func (w *cbDecoderOf) decode(pd packetDecoder) error {
 	return err
 }
 
-func cbEncode(body encoder) (buf []byte, prep, real cbPass, err string, panicked, prepDone bool) {
+// cbErrKind classifies an error by identity / type, never by its wording (the text is logged for the reader only):
+// "" | insufficient | decoding (PacketDecodingError) | encoding (PacketEncodingError) | panic | other
+func cbErrKind(e error, panicked bool) string {
+	switch {
+	case e == nil:
+		return ""
+	case panicked:
+		return "panic"
+	case e == ErrInsufficientData:
+		return "insufficient"
+	}
+	switch e.(type) {
+	case PacketDecodingError, *PacketDecodingError:
+		return "decoding"
+	case PacketEncodingError, *PacketEncodingError:
+		return "encoding"
+	}
+	return "other"
+}
+
+func cbEncode(body encoder) (buf []byte, prep, real cbPass, err string, panicked, prepDone bool, kind string) {
 	w := &cbEncoderOf{body: body, prep: &prep, real: &real}
 	if e := cdSafe(func() (e error) { buf, e = encode(w, nil); return }, &panicked); e != nil {
-		err = e.Error()
+		err, kind = cdErrText(e), cbErrKind(e, panicked)
 	}
 	prepDone = w.prepDone
 	return
 }
 
-func cbDecode(buf []byte, plain decoder, versioned versionedDecoder, version int16) (tape cbTape, end int, err string, panicked bool) {
+func cbDecode(buf []byte, plain decoder, versioned versionedDecoder, version int16) (tape cbTape, end int, err string, panicked bool, kind string) {
 	w := &cbDecoderOf{plain: plain, versioned: versioned, version: version, tape: &tape, end: &end}
 	if e := cdSafe(func() error { return decode(buf, w) }, &panicked); e != nil {
-		err = e.Error()
+		err, kind = cdErrText(e), cbErrKind(e, panicked)
 	}
 	return
 }
@@ -682,7 +702,7 @@ type cbSubject struct {
 
 // cbRun records encode (both passes), decode, re-encode, second decode of one value.
 func cbRun(rec *vRec, s *cbSubject, sum *cbSummary) (encoded bool) {
-	buf, prep, real, eerr, epanic, prepDone := cbEncode(s.value)
+	buf, prep, real, eerr, epanic, prepDone, eerrk := cbEncode(s.value)
 	key := fmt.Sprintf("%s/v%d", s.name, s.version)
 	if eerr != "" && !prepDone {
 		sum.Skipped[key]++
@@ -696,7 +716,7 @@ func cbRun(rec *vRec, s *cbSubject, sum *cbSummary) (encoded bool) {
 		shape = cbShape(r.body)
 	}
 	ev := kv{"name": s.name, "kind": s.kind, "ver": int(s.version), "hasmap": s.hasMap, "fill": s.fill, "shape": shape,
-		"eerr": eerr, "epanic": epanic,
+		"eerr": eerr, "epanic": epanic, "eerrk": eerrk, "derrk": "", "rerrk": "", "d2errk": "", "reshape": "",
 		"preplen": prep.total, "reallen": real.total, "buflen": len(buf),
 		"prepext": cbExtents(prep.pushes, false), "realext": cbExtents(real.pushes, true),
 		"fields":  cbPushRows(real.pushes, true),
@@ -707,8 +727,8 @@ func cbRun(rec *vRec, s *cbSubject, sum *cbSummary) (encoded bool) {
 		"d2err": "", "d2panic": false, "tdec2": "", "d2end": 0, "decdiff": "", "rediff": ""}
 	if eerr == "" {
 		pl, vd, asEnc := s.fresh()
-		tdec, dend, derr, dpanic := cbDecode(buf, pl, vd, s.version)
-		ev["derr"], ev["dpanic"], ev["dend"], ev["tdec"] = derr, dpanic, dend, cbCanon(tdec.cells)
+		tdec, dend, derr, dpanic, derrk := cbDecode(buf, pl, vd, s.version)
+		ev["derr"], ev["dpanic"], ev["dend"], ev["tdec"], ev["derrk"] = derr, dpanic, dend, cbCanon(tdec.cells), derrk
 		ev["decdiff"] = cbDiff(real.tape.cells, tdec.cells)
 		if derr == "" {
 			// the version the decoded value reports; restored afterwards so that the remaining clauses judge the rest of the value
@@ -727,13 +747,18 @@ func cbRun(rec *vRec, s *cbSubject, sum *cbSummary) (encoded bool) {
 			if s.prepare != nil {
 				s.prepare(asEnc, s.value)
 			}
-			buf2, _, real2, rerr, rpanic, _ := cbEncode(asEnc)
-			ev["rerr"], ev["rpanic"], ev["relen"], ev["redigest"], ev["treenc"] = rerr, rpanic, len(buf2), cbDigest(buf2), cbCanon(real2.tape.cells)
+			if decBody != nil {
+				ev["reshape"] = cbShape(decBody) // collection shape of the decoded value (cause signature for findings)
+			} else {
+				ev["reshape"] = cbShape(asEnc)
+			}
+			buf2, _, real2, rerr, rpanic, _, rerrk := cbEncode(asEnc)
+			ev["rerr"], ev["rpanic"], ev["relen"], ev["redigest"], ev["treenc"], ev["rerrk"] = rerr, rpanic, len(buf2), cbDigest(buf2), cbCanon(real2.tape.cells), rerrk
 			ev["rediff"] = cbDiff(real.tape.cells, real2.tape.cells)
 			if rerr == "" {
 				pl2, vd2, _ := s.fresh()
-				tdec2, d2end, d2err, d2panic := cbDecode(buf2, pl2, vd2, s.version)
-				ev["d2err"], ev["d2panic"], ev["tdec2"], ev["d2end"] = d2err, d2panic, cbCanon(tdec2.cells), d2end
+				tdec2, d2end, d2err, d2panic, d2errk := cbDecode(buf2, pl2, vd2, s.version)
+				ev["d2err"], ev["d2panic"], ev["tdec2"], ev["d2end"], ev["d2errk"] = d2err, d2panic, cbCanon(tdec2.cells), d2end, d2errk
 			}
 		}
 	}
